@@ -46,7 +46,9 @@
 #define MAXMEM   8
 #define NBC      30                  /* classes declared by Cello.h */
 #define NRC      260                 /* run-time classes created by the harness */
-#define NU       (NBC + NRC)
+#define NPFX     5                   /* user classes whose names are prefixes of one another: K1 K10 K100 Pri Print */
+#define PF0      (NBC + NRC)
+#define NU       (NBC + NRC + NPFX)
 #define MAXINST  256
 
 static void fatal(const char* fmt, ...) {
@@ -181,6 +183,36 @@ static const char* my_docname(void) { n_docname++; return "DocName"; }
 static void rt_m0(var self) { n_m0++; last_self = self; }
 static void rt_m1(var self) { n_m1++; last_self = self; }
 
+/*
+** User classes with prefix-related names, declared the way a program declares them, and statically declared
+** types over them (both declaration orders, only the longer, only the shorter).  The type names are prefix-related
+** as well (E1/E10/E100, Net/NetE/NetError/NetErrorTimeout) - used by mode=typecmp.
+*/
+struct K1 { void (*m0)(var); void (*m1)(var); };
+struct K10 { void (*m0)(var); void (*m1)(var); };
+struct K100 { void (*m0)(var); void (*m1)(var); };
+struct Pri { void (*m0)(var); void (*m1)(var); };
+struct Print { void (*m0)(var); void (*m1)(var); };
+static var K1 = CelloEmpty(K1);
+static var K10 = CelloEmpty(K10);
+static var K100 = CelloEmpty(K100);
+static var Pri = CelloEmpty(Pri);
+static var Print = CelloEmpty(Print);
+static var E1 = CelloEmpty(E1, Instance(Print, rt_m0, rt_m1), Instance(Pri, rt_m0, rt_m1));               /* longer first */
+static var E10 = CelloEmpty(E10, Instance(Pri, rt_m0, rt_m1), Instance(Print, rt_m0, rt_m1));             /* shorter first */
+static var NetError = CelloEmpty(NetError, Instance(Print, rt_m0, rt_m1));                                  /* only the longer */
+static var NetErrorTimeout = CelloEmpty(NetErrorTimeout, Instance(Pri, rt_m0, rt_m1));                      /* only the shorter */
+static var E100 = CelloEmpty(E100, Instance(K100, rt_m0, rt_m1), Instance(K10, rt_m0, rt_m1), Instance(K1, rt_m0, rt_m1));
+static var Net = CelloEmpty(Net, Instance(K10, rt_m0, rt_m1));
+static var NetE = CelloEmpty(NetE, Instance(K100, rt_m0, rt_m1), Instance(K1, rt_m0, rt_m1));
+#define NSU 7
+static const struct { var* objp; const char* name; int n; const char* decl[3]; } SU[NSU] = {
+  { &E1, "E1", 2, { "Print", "Pri" } }, { &E10, "E10", 2, { "Pri", "Print" } },
+  { &NetError, "NetError", 1, { "Print" } }, { &NetErrorTimeout, "NetErrorTimeout", 1, { "Pri" } },
+  { &E100, "E100", 3, { "K100", "K10", "K1" } }, { &Net, "Net", 1, { "K10" } }, { &NetE, "NetE", 2, { "K100", "K1" } },
+};
+static var PI[NPFX][4 + 2];
+
 /* the raw record, as Cello.h lays it out */
 static struct Type* rec_triples(var T) { return (struct Type*)((var*)T + NCACHE); }
 
@@ -280,6 +312,22 @@ static void setup_rt_classes(void) {
   }
 }
 
+static void setup_prefix_classes(void) {
+  static var* const cls[NPFX] = { &K1, &K10, &K100, &Pri, &Print };
+  static const char* const nm[NPFX] = { "K1", "K10", "K100", "Pri", "Print" };
+  for (int k = 0; k < NPFX; k++) {
+    struct ucls* u = &U[PF0 + k];
+    u->obj = *cls[k]; u->name = nm[k];
+    const char* rn = raw_name_of(u->obj);
+    if (!rn || strcmp(rn, nm[k]) != 0) fatal("prefix class %s names itself %s", nm[k], rn ? rn : "?");
+    u->nmem = 2; u->off[0] = offsetof(struct RtC, m0); u->off[1] = offsetof(struct RtC, m1);
+    u->mname[0] = "m0"; u->mname[1] = "m1"; u->slot = -1;
+    struct RtC* body = header_init(PI[k], u->obj, AllocStatic);
+    body->m0 = rt_m0; body->m1 = rt_m1;
+    u->inst[0] = u->inst[1] = body;
+  }
+}
+
 /* an instance object for class c that differs from U[c].inst[0] (for a built-in class its first member is empty) */
 static var alt_inst(int c) {
   if (c < NBC) return U[c].inst[1];
@@ -310,6 +358,7 @@ struct tut {
   int ti;                      /* index in TYS, or -1 for a run-time type */
   int n; const int* comp; const int* vr;   /* run-time: declared (class, variant) list */
   const var* insts;            /* run-time: the instance objects handed to new(Type, ...), in order */
+  int user_static;             /* a type the harness declares statically over its own classes (model = declaration) */
 };
 
 static var OBJ[sizeof TYS / sizeof TYS[0]][4 + 8];
@@ -455,7 +504,7 @@ static char lab[256];
 static const char* mklabel(struct tut* t, struct lk* k, const char* symptom) {
   const char* pres = !X.present ? "absent-class" : (ep_has_member(k->ep) && !X.memb) ? "empty-member" : "present";
   /* Terminal is the one type object that cannot travel in an argument tuple (it ends it): a feature of the input */
-  snprintf(lab, sizeof lab, "dispatch/%s/%s/%s/%s/%s", t->ti < 0 ? "runtime-type" : t->T == Terminal ? "static-type:Terminal" : "static-type", EPN[k->ep], pres,
+  snprintf(lab, sizeof lab, "dispatch/%s/%s/%s/%s/%s", t->user_static ? "static-user-type" : t->ti < 0 ? "runtime-type" : t->T == Terminal ? "static-type:Terminal" : "static-type", EPN[k->ep], pres,
     !X.present ? "-" : X.memo_cold < 0 ? "not-in-record" : X.memo_cold ? "cold" : "warm", symptom);
   return lab;
 }
@@ -1908,6 +1957,7 @@ int main(int argc, char** argv) {
   audit_snapshots();
   crosscheck_header();
   setup_rt_classes();
+  setup_prefix_classes();
   discover_cache();
 
   const char* mode = vf_param("mode", "matrix");
